@@ -367,7 +367,7 @@ def plan(tier, seed):
         specs = [{"kind": "docs", "examples": 80, "seed": seed * 1000 + k} for k in range(16)]
         specs += [{"kind": "corpus", "files": [f]} for f in ["1HMH_1_E.cif", "6INQ.cif", "1DFU_1_M-N.cif", "4gqj-assembly1.cif"]]
     else:
-        specs = [{"kind": "docs", "examples": 700, "seed": seed * 1000 + k} for k in range(16)]
+        specs = [{"kind": "docs", "examples": 2000, "seed": seed * 1000 + k} for k in range(16)]
         specs += [{"kind": "corpus", "files": [f]} for f in corpus.all_files() if f.endswith(".cif")]
     return specs
 
